@@ -26,6 +26,14 @@ def build(t):
     return deps.AndRelationships.from_relationships(*[build(x) for x in t[1]])
 
 
+def has_archs(t):
+    if t[0] == 'R':
+        return bool(t[2])
+    if t[0] == 'V':
+        return bool(t[4])
+    return any(has_archs(x) for x in t[1])
+
+
 def cand(c):
     if isinstance(c, list):
         return Version(epoch=c[0], upstream=c[1], revision=c[2])
@@ -57,13 +65,30 @@ def impl(fname, args):
         v = call(f, *args)
         return v
     if fname == 'rel_matches':
-        return call(lambda t, n, c: build(t).matches(n, cand(c)), *args)
+        def f(t, n, c):
+            r = build(t)
+            ans = r.matches(n, cand(c))
+            if not has_archs(t):
+                # a tree without architecture restrictions answers for the name and the version alone: naming the
+                # candidate's architecture as well changes nothing
+                for how, a in (('architecture="amd64"', r.matches(n, cand(c), architecture='amd64')), ('"i386" as third argument', r.matches(n, cand(c), 'i386')),
+                               ('architecture="all"', build(t).matches(n, cand(c), architecture='all'))):
+                    if a is not ans:
+                        return ['differs', 'matches(name, version) answers %r, with %s it answers %r' % (ans, how, a)]
+            return ans
+        return call(f, *args)
     if fname == 'match_relationships':
         def f(n, c, sets):
             class A:  # a stand-in for DebArchive: only .name and .version are read
                 name = n
                 version = cand(c)
-            return package.match_relationships(A, [build(t) for t in sets])
+            ans = package.match_relationships(A, [build(t) for t in sets])
+            # the relationship sets may come as any iterable: a tuple, an iterator, a generator read once
+            for how, it in (('a tuple', tuple(build(t) for t in sets)), ('an iterator', iter([build(t) for t in sets])), ('a generator', (build(t) for t in sets))):
+                a = package.match_relationships(A, it)
+                if a is not ans:
+                    return ['differs', 'given a list the answer is %r, given %s it is %r' % (ans, how, a)]
+            return ans
         return call(f, *args)
     raise KeyError(fname)
 
